@@ -279,7 +279,9 @@ class CoordinateComponent(Component):
             # Some views, e.g. with lists of integer arrays, can give arbitrarily
             # complex (copied) subsets of arrays, so in this case we don't do any
             # optimization
-            if view is Ellipsis:
+            if view is Ellipsis or isinstance(view, np.ndarray):
+                # (a single array, e.g. a boolean mask or an integer index
+                # array, is one index and not a sequence of per-axis entries)
                 optimize_view = False
             else:
                 for v in view:
